@@ -76,6 +76,14 @@ RANGE_BATTERY = [
     ("range-tail-no-newline", "local   a = 1\nlocal   b   = 2", ["--range-end", "13"], [], [], "local a = 1\nlocal   b   = 2"),
     ("range-tail-no-newline-comment", "local   a = 1\nlocal   b   = 2 -- c", ["--range-end", "13", "--line-endings", "Windows"], [], [], "local a = 1\r\nlocal   b   = 2 -- c"),
     ("range-tail-crlf-kept", "local   a = 1\nlocal   b   = 2\r\n", ["--range-end", "13"], [], [], "local a = 1\nlocal   b   = 2\r\n"),
+    ("range-inside-returned-function", "local   M = {}\nreturn function()\n\tlocal   zz   =   a   +   b\n\tlocal   q = 1\nend\n", ["--range-start", "32", "--range-end", "60"], [], [],
+     "local   M = {}\nreturn function()\n\tlocal zz = a + b\n\tlocal   q = 1\nend\n"),
+    ("range-inside-returned-call-argument", "return wrap(x, function()\n\tlocal   zz   =   a   +   b\n\tlocal   q = 1\nend)\n", ["--range-start", "26", "--range-end", "54"], [], [],
+     "return wrap(x, function()\n\tlocal zz = a + b\n\tlocal   q = 1\nend)\n"),
+    ("range-inside-second-returned-function", "do\n\treturn nil, function()\n\t\tlocal   zz   =   a   +   b\n\t\tlocal   q = 1\n\tend\nend\n", ["--range-start", "28", "--range-end", "58"], [], [],
+     "do\n\treturn nil, function()\n\t\tlocal zz = a + b\n\t\tlocal   q = 1\n\tend\nend\n"),
+    ("range-inside-assigned-function", "local   f = function()\n\tlocal   zz   =   a   +   b\n\tlocal   q = 1\nend\n", ["--range-start", "24", "--range-end", "52"], [], [],
+     "local   f = function()\n\tlocal zz = a + b\n\tlocal   q = 1\nend\n"),
     ("range-open", "local x   =  1\nlocal y   =  2\n", [], [], ["local x = 1\n", "local y = 2\n"]),
     ("range-inverted", "local   a   =   1\nlocal   b   =   2 ;\nlocal   c   =   3\n", ["--range-start", "37", "--range-end", "18"], [], [],
      "local   a   =   1\nlocal   b   =   2 ;\nlocal   c   =   3\n"),
@@ -125,6 +133,8 @@ def scenarios_for(kind, names):
         return [n for n in names if n in TOGGLE]
     if kind in ("ignored-in-range", "field"):
         return list(names)
+    if kind == "visitor-shape":
+        return [n for n in names if "function" in n or "nested" in n] + [n for n in names if not ("function" in n or "nested" in n)]
     if kind == "output":
         return [n for n in names if "no-newline" in n or "tail" in n] + [n for n in names if not ("no-newline" in n or "tail" in n)]
     return [n for n in names if n not in SEMI]
